@@ -1067,6 +1067,9 @@ fn main() {
         if first.is_none() { first = Some(fail_json(last_started, &descr, &files, &why)); }
         if only.is_some() { break; }
         next = last_started + 1;
+        // a defect that crashes thousands of programs is decided long before all of them have been tried (each crash costs a
+        // process restart): stop after 150 failing programs; the count reported is then a lower bound
+        if failed.len() >= 150 && std::env::var("TWIN_ALL").is_err() { eprintln!("front: stopping after {} failing programs (case {} of {})", failed.len(), last_started, total); break; }
     }
     failed.sort();
     println!("{{\"family\":\"front\",\"fn\":\"extract\",\"cases\":{},\"failures\":{},\"failed_cases\":{:?},\"first\":{},\"code\":{},\"diagnostics\":{},\"parse_errors\":{},\"depth\":{}}}",
